@@ -598,6 +598,9 @@ def random_pair(rng, max_p=8, max_g=20):
                 n["in"][i] = ["or", [e, o] if rng.random() < 0.5 else [o, e], f"tg{jj}_{i}" if rng.random() < 0.5 else None]
     if not _valid(P):
         return None
+    n_or = sum(1 for n in nodes for v in n["in"] if v is not None and v[0] == "or")
+    if n_or > 4 or len({o[1] for o in P["outs"]}) > 3:
+        return None  # keeps the enumeration (2^ORs x hosts^(output nodes-1)) small on both sides
     # ---- host: plant an instance (first OR alternative preferred at random), then add noise
     leaves = ["a", "b", "c", "c2", "d"]
     inits = {"c": 1.0, "c2": 2.0, "d": [1.0]}
